@@ -45,3 +45,40 @@ fn search_returns_a_legal_move_or_the_right_error_and_restores_the_board() {
         }
     }
 }
+
+/// ONE search context reused (as a Game reuses its context): every position is searched with White to move and with
+/// Black to move (same placement, same key - the key does not cover the side to move), then again, at depths 1..3;
+/// whatever the context remembers, the answer is a legal move of the side to move / the right error, board unchanged
+/// (added after seed r13_C07: a root-result memo keyed by position hash and depth only)
+#[test]
+fn reused_context_answers_for_the_side_to_move() {
+    let mut placements: Vec<(String, Board)> = positions();
+    placements.push(("kings and a rook".into(), setup(&[(A1, Piece::King, Color::White), (B2, Piece::Rook, Color::White), (H8, Piece::King, Color::Black), (G6, Piece::Pawn, Color::Black)], Color::White)));
+    placements.push(("kings and pawns".into(), setup(&[(E1, Piece::King, Color::White), (E2, Piece::Pawn, Color::White), (E8, Piece::King, Color::Black), (D7, Piece::Pawn, Color::Black)], Color::White)));
+    for depth in 1u8..=3 {
+        let mut ctx = SearchContext::new(depth);
+        for round in 0..2 {
+            for (name, b0) in placements.iter() {
+                for flip in [false, true] {
+                    let mut b = b0.clone();
+                    if flip { b.toggle_turn(); }
+                    let turn = b.turn();
+                    // the flipped position must be consistent: the side not to move is not in check, no stale en-passant target
+                    let mut probe = b.clone();
+                    if flip && (chess::evaluate::player_is_in_check(&mut probe, &mut MoveGenerator::new(), turn.opposite()) || !b.peek_en_passant_target().is_empty()) { continue; }
+                    let legal = MoveGenerator::new().generate_moves(&mut b.clone(), turn);
+                    let before = snapshot(&b);
+                    let res = std::panic::catch_unwind(std::panic::AssertUnwindSafe(|| alpha_beta_search(&mut ctx, &mut b, &mut MoveGenerator::new())));
+                    let res = match res { Ok(r) => r, Err(_) => panic!("{} ({:?} to move) depth {} round {}: the search panicked", name, turn, depth, round) };
+                    assert!(snapshot(&b) == before, "{} ({:?} to move) depth {}: the caller's board changed", name, turn, depth);
+                    match res {
+                        Err(SearchError::DepthTooLow) => panic!("{} depth {}: DepthTooLow", name, depth),
+                        Err(SearchError::NoAvailableMoves) => assert!(legal.is_empty(), "{} ({:?} to move) depth {} round {}: NoAvailableMoves with {} legal moves", name, turn, depth, round, legal.len()),
+                        Ok(m) => assert!(legal.iter().any(|l| l.to_uci() == m.to_uci() && l.captures() == m.captures()),
+                                         "{} ({:?} to move) depth {} round {}: {} is not a legal move of the side to move (reused context)", name, turn, depth, round, m),
+                    }
+                }
+            }
+        }
+    }
+}
